@@ -44,7 +44,9 @@ def run(R, tier, seed, driver_ok):
             full = np.vstack([X, extra])
             # a third of the points are integer-valued (a records-style callable returns them with an integer dtype)
             int_rows = rng.choice(len(full), size=max(2, len(full) // 3), replace=False)
-            full[int_rows] = np.round(full[int_rows])
+            rounded = full.copy(); rounded[int_rows] = np.round(full[int_rows])
+            if len(np.unique(rounded, axis=0)) == len(rounded):      # (coinciding points would make collapsed pairs)
+                full = rounded
             X = np.ascontiguousarray(full[:n])
             perm = rng.permutation(len(full))
             pool = full[perm]
